@@ -19,10 +19,10 @@ def classify(f):
 def kind_a(report, tier, seed):
     from contracts import idexpr
 
-    idexpr.run(report, {"exhaust", "context"})
+    report.guarded("exhaust/context contracts", idexpr.run, report, {"exhaust", "context"})
     from contracts import desugar
 
-    desugar.run(report)
+    report.guarded("desugar placement contracts", desugar.run, report)
 
 
 def check(argv):
